@@ -721,3 +721,46 @@ def c02_i(ctx):
 def c02_j(ctx):
     from .base import zero_is_valid_obligation
     zero_is_valid_obligation(ctx, ['seed'])
+
+
+@obligation('C02-k', 'T10 T3', 'every draw a seeded sampler makes outside the model graph uses a '
+            'generator derived from its seed', floor=2,
+            necessary='a draw without random_state comes from numpy\'s global generator: the run '
+                      'depends on the state of np.random')
+def c02_k(ctx):
+    sm = ctx.repo.module('elfi.methods.inference.samplers')
+    n = 0
+    fns = [m for c in sm.classes.values() for m in c.methods.values()] + \
+        list(sm.functions.values())
+    for f in fns:
+        ex = ctx.ex(f)
+        for c in ctx.calls(f):
+            if not (isinstance(c.func, ast.Attribute) and c.func.attr == 'rvs'):
+                continue
+            n += 1
+            kw = dict((k.arg, ex.term(k.value)) for k in c.keywords)
+            rs = kw.get('random_state')
+            ok = rs is not None and rs != ('const', None) and (
+                contains(rs, 'self._round_random_state') or contains(rs, 'self.seed') or
+                any(('param', p) in set(subterms(rs)) for p in f.all_params
+                    if p not in (f.self_name,)) or contains(rs, 'np.random.RandomState(_)'))
+            ctx.check(ok, f, 'draw on the sampler\'s own generator', 'random_state=<seeded>',
+                      '`{}` draws without a generator derived from the sampler\'s seed (falls '
+                      'back to np.random)'.format(src(c)[:70]), fn=f, node=c)
+        # direct use of the global generator
+        for a in own_nodes(f.node):
+            if isinstance(a, ast.Attribute):
+                d = ctx.repo.dotted_of(f.module, a)
+                if d and d.startswith('numpy.random.') and d not in ('numpy.random.RandomState',
+                                                                     'numpy.random.Generator',
+                                                                     'numpy.random.default_rng',
+                                                                     'numpy.random.SeedSequence'):
+                    p = getattr(a, '_parent', None)
+                    if isinstance(p, ast.Attribute) and p.value is a:
+                        continue
+                    n += 1
+                    ctx.bad(f, 'global generator used',
+                            '`{}` uses numpy\'s global generator in a seeded sampler'.format(
+                                src(a)), fn=f, node=a)
+    if n < 2:
+        ctx.undecided('expected at least two draws in the samplers module, found {}'.format(n))
